@@ -524,7 +524,7 @@ func nonTrivial(c Case) bool {
 var spec = kit.Spec[Case]{
 	Prop: "C20", Name: "conc",
 	Rule:  "2-4 real goroutines in a child process (GOMAXPROCS 2|16), each looping 60-500 times over a generated script (<=6 steps) of read / slot write (+-Sync, +-descriptor Flush) / Mode / ModTime / SetMode / SetModTime / Size / List / Root.Flush / FlushPath(file|dir) / Mv(file|dir) on 3 shared files in 2 directories; liveness by watchdog + SIGQUIT dump signature, safety by per-worker slots with growing sequence numbers in each file (a write whose Close/Flush returned before a read/flush began must be visible in what that read/flush returns, and in the final flushed root); non-trivial = two workers operate on the same file and one of them writes content or metadata",
-	Quick: 40, Thorough: 75,
+	Quick: 30, Thorough: 75,
 	Gen: gen, Run: run,
 }
 
